@@ -132,6 +132,9 @@ def random_prms(rng, rows):
         p['LAYERING_PRMS'] = {'min_okta_to_split': rng.choice([0, 1, 2, 5])}
     if rng.random() < 0.1:
         p['SLICING_PRMS'] = {'distance_threshold': rng.choice([0.05, 0.1, 0.2, 0.4])}
+    if rng.random() < 0.12:
+        # the minimum range of the height scaling, 0 (= no minimum range, the scaler's own default) included
+        p.setdefault('SLICING_PRMS', {})['height_scale_kwargs'] = {'min_range': rng.choice([0, 0, 1, 50, 1000, 20000])}
     return p
 
 
@@ -158,13 +161,19 @@ def frame_variant(rng, rows):
     """An accepted spelling of the same table that the checker has to normalise: ceilometer ids that are not str
     (ints), other dtypes for the numeric columns, an extra column, another column order.  Returns (frame, rows as the
     package will see them after normalisation, tag)."""
-    how = rng.choice(['int_ceilo', 'int_ceilo', 'obj_ceilo', 'float_type', 'int8_type', 'extra_col', 'col_perm', 'object_all'])
-    if how == 'int_ceilo':
+    how = rng.choice(['int_ceilo', 'int_ceilo', 'obj_ceilo', 'float_type', 'int8_type', 'extra_col', 'col_perm', 'object_all',
+                      'objint_ceilo', 'objint_ceilo', 'extra_col_unhashable'])
+    if how in ('int_ceilo', 'objint_ceilo'):
         names = sorted({r[0] for r in rows})
         m = {c: i + 1 for i, c in enumerate(names)}
         rows2 = [(str(m[c]), dt, h, t) for c, dt, h, t in rows]
         df = make_frame(rows2)
-        df['ceilo'] = np.array([m[c] for c, *_ in rows], dtype='int64')
+        if how == 'int_ceilo':
+            df['ceilo'] = np.array([m[c] for c, *_ in rows], dtype='int64')
+        else:
+            # an object column holding Python ints (or ints and strs mixed, as after concatenating per-instrument tables)
+            mixed = rng.random() < 0.5
+            df['ceilo'] = pd.Series([(m[c] if not (mixed and m[c] % 2 == 0) else str(m[c])) for c, *_ in rows], dtype=object)
         return df, rows2, how, {c: str(i) for c, i in m.items()}
     df = make_frame(rows)
     if how == 'obj_ceilo':
@@ -175,6 +184,9 @@ def frame_variant(rng, rows):
         df['type'] = df['type'].astype('int8')
     elif how == 'extra_col':
         df.insert(rng.randrange(len(df.columns) + 1), 'station', 'LSZH')
+    elif how == 'extra_col_unhashable':
+        # a superfluous column (dropped with a warning) whose cells are lists / dicts (flags from a JSON feed)
+        df['flags'] = [rng.choice([[], [1, 2], {'q': 1}]) for _ in range(len(df))]
     elif how == 'col_perm':
         cols = list(df.columns); rng.shuffle(cols); df = df[cols]
     elif how == 'object_all':
@@ -350,6 +362,18 @@ def run_scene(rows, prms, index=None, stages=('slices', 'groups', 'layers'), fra
                     obs['stage'] = st
                     getattr(chunk, 'find_' + st)()
                 obs['levels'][st] = snapshot(chunk, st)
+            # queries are queries: after the messages and tables were read, the flag, the parameters and every table are what
+            # they were (the chunk is only changed by its stage methods)
+            ref = {st: snapshot(chunk, st) for st in stages}          # state after the last stage (snapshot = queries)
+            again = {st: snapshot(chunk, st) for st in reversed(stages)}
+            impure = [st for st in stages if again[st] != ref[st]]
+            if ref[stages[-1]] != obs['levels'][stages[-1]]:
+                impure.append(stages[-1] + ' (first read)')
+            if bool(chunk.clouds_above_msa_buffer) != obs['flag']:
+                impure.append('clouds_above_msa_buffer')
+            if not _same_tree(chunk.prms, expected_eff) and not obs.get('eff_mismatch'):
+                impure.append('prms')
+            obs['impure_queries'] = impure or None
             obs['stage'] = 'done'
             obs['chunk'] = chunk
         except Exception as e:  # classified by the caller
